@@ -17,6 +17,65 @@ func exceptionRoot(f *ssa.Function) *ssa.Function {
 	return f
 }
 
+// runPureFamily: the built-ins of a family are functions of their arguments — every write in the
+// library functions reachable from the named roots without leaving the given packages (so not
+// through a Callable back into the evaluator) targets memory of the same activation, and no
+// pre-existing memory is handed to unreviewed library code (no process-wide cache, pool or
+// counter). Reports through W under the Eval root configuration.
+func runPureFamily(c *Ctx, r *Result, roots []string, pkgs map[string]bool, min int) {
+	var rs []*ssa.Function
+	for _, n := range roots {
+		if f := c.mustFn(r, n); f != nil {
+			rs = append(rs, f)
+		}
+	}
+	fam := map[*ssa.Function]bool{}
+	var walk func(f *ssa.Function)
+	walk = func(f *ssa.Function) {
+		if fam[f] || f.Pkg == nil || !pkgs[f.Pkg.Pkg.Name()] {
+			return
+		}
+		fam[f] = true
+		for _, e := range c.G.Out[f] {
+			walk(e.Callee)
+		}
+		for _, an := range f.AnonFuncs {
+			walk(an)
+		}
+	}
+	for _, f := range rs {
+		walk(f)
+	}
+	before := len(r.Obls)
+	runWFiltered(c, c.G, r, "W", evalRootCfg(c), func(s wSite) bool { return fam[s.f] })
+	r.RequireMin("W write sites in the function family", len(r.Obls)-before, min)
+	r.Count("W function family size", len(fam))
+}
+
+// runPureNamed: W (Eval root) restricted to the named functions, their closures, and the methods
+// of the named receiver types: they keep no state between calls and write no pre-existing memory.
+func runPureNamed(c *Ctx, r *Result, names []string, recvTypes []string, min int) {
+	set := map[string]bool{}
+	for _, n := range names {
+		set[n] = true
+		c.mustFn(r, n)
+	}
+	before := len(r.Obls)
+	runWFiltered(c, c.G, r, "W", evalRootCfg(c), func(s wSite) bool {
+		k := exceptionKey(s.f)
+		if set[k] {
+			return true
+		}
+		for _, t := range recvTypes {
+			if strings.HasPrefix(k, "(*"+t+").") || strings.HasPrefix(k, "("+t+").") {
+				return true
+			}
+		}
+		return false
+	})
+	r.RequireMin("W write sites in the named machinery", len(r.Obls)-before, min)
+}
+
 // libFuncsIn: the source-level library functions of a reach set.
 func libFuncsIn(c *Ctx, r *Reach) []*ssa.Function {
 	var out []*ssa.Function
@@ -70,33 +129,36 @@ var predicateMachinery = []string{
 func init() {
 	register(&propDef{
 		ID:          "C01",
-		Explanation: "Decides two structural necessary conditions of the path law over ALL programs and inputs: (SEQ) no evaluator-internal *sequence is ever stored inside a value, handed to a callable/reflect mutator, or returned by eval/Eval/a built-in — a symbolic may-wrap-a-sequence dataflow over every reflect.Value/interface SSA value of the module with the asSequence refinement; (NF) every kind-specific reflect accessor (Len/Index/MapKeys/MapIndex/Field...) in the path machinery is applied to a provably resolved value (jtypes.Resolve / arrayify / MakeSlice results, interprocedural). Breaking either makes a path over arrays nested in arrays return an internal object or panic. NOT decided: order, one-level flattening, singleton collapse, keep-array marker as values.",
+		Explanation: "Decides two structural necessary conditions of the path law over ALL programs and inputs: (SEQ) no evaluator-internal *sequence is ever stored inside a value, handed to a callable/reflect mutator, or returned by eval/Eval/a built-in — a symbolic may-wrap-a-sequence dataflow over every reflect.Value/interface SSA value of the module with the asSequence refinement; (NF) every kind-specific reflect accessor (Len/Index/MapKeys/MapIndex/Field...) in the path machinery is applied to a provably resolved value (jtypes.Resolve / arrayify / MakeSlice results, interprocedural). Breaking either makes a path over arrays nested in arrays return an internal object or panic. (W) the path machinery (eval, evalPath, evalPathStep, evalOverArray/Sequence, evalName*, wildcard/descendant walkers, the sequence type) writes no memory that existed before the evaluation and keeps no cache: a path's value depends on the expression and the input only. NOT decided: order, one-level flattening, singleton collapse, keep-array marker as values.",
 		Rule:        commonRule,
-		Fixtures:    []string{"seq", "nf"},
+		Fixtures:    []string{"seq", "nf", "w"},
 		Run: func(c *Ctx, r *Result) {
 			runSEQ(c, c.G, r, "SEQ", c.W.LibSSA["jsonata"], c.Lib, c.REval.Roots)
 			r.RequireMin("SEQ producers (boxing of *sequence)", r.Counts["SEQ producers (boxing of *sequence)"], 5)
 			r.RequireMin("SEQ consumers (asSequence call sites)", r.Counts["SEQ consumers (asSequence call sites)"], 4)
 			n := runNF(c, c.G, r, "NF", c.fnsNamed(r, pathMachinery...), c.REval)
 			r.RequireMin("NF accessor sites in the path machinery", n, 20)
+			// a path's value depends on the expression and the input only: no step keeps state
+			runPureNamed(c, r, append([]string{"jsonata.newSequence", "jsonata.evalArray", "jsonata.evalVariable"}, pathMachinery...), []string{"jsonata.sequence"}, 18)
 			r.Assume("values registered with RegisterVars and inputs passed to Eval do not contain *jsonata.sequence (unexported type: impossible from outside the package)")
 		},
 	})
 	register(&propDef{
 		ID:          "C02",
-		Explanation: "Decides the NF discipline in the predicate machinery (evalPredicate, applyFilter, arrayify, normalizeArray and the evalPath->evalPathStep->evalOverArray chain a filter path enters with an array item): every reflect accessor receiver is provably resolved on every path, interprocedurally. This is the clause behind the two panics the property names (x[$$.idx], arr[o] on [[1]]). NOT decided: floor/negative index arithmetic, boolean casting, number-array detection, step-local vs whole-path attachment (value-level).",
+		Explanation: "Decides the NF discipline in the predicate machinery (evalPredicate, applyFilter, arrayify, normalizeArray and the evalPath->evalPathStep->evalOverArray chain a filter path enters with an array item): every reflect accessor receiver is provably resolved on every path, interprocedurally. This is the clause behind the two panics the property names (x[$$.idx], arr[o] on [[1]]). (W) evalPredicate, applyFilter and their helpers write no pre-existing memory and keep no state between calls. NOT decided: floor/negative index arithmetic, boolean casting, number-array detection, step-local vs whole-path attachment (value-level).",
 		Rule:        commonRule,
-		Fixtures:    []string{"nf"},
+		Fixtures:    []string{"nf", "w"},
 		Run: func(c *Ctx, r *Result) {
 			n := runNF(c, c.G, r, "NF", c.fnsNamed(r, predicateMachinery...), c.REval)
 			r.RequireMin("NF accessor sites in the predicate machinery", n, 10)
+			runPureNamed(c, r, append([]string{"jlib.Boolean"}, predicateMachinery...), nil, 8)
 		},
 	})
 	register(&propDef{
 		ID:          "C03",
-		Explanation: "Decides four structural clauses of the operator table: (FIN) every float produced by evalNumericOperator/evalNegation/evalRange passes two-sided math.IsInf and math.IsNaN tests whose true edges leave by an error return before it is boxed into a value (bit-set dataflow {Inf,NaN} with dominance-based guards); (GUARD) evalRange's size test 0<=size<=10,000,000 dominates the allocation and the constant is the property's; (LAZY) in evalConditional Then/Else are evaluated only on the true/false edge of jlib.Boolean(cond) and no path runs both; (TAB) every switch over NumericOperator/ComparisonOperator/BooleanOperator in the evaluator covers all declared constants, and each parser led is registered for exactly the tokens its switch handles, so no 'unrecognised operator' panic is reachable. NOT decided: the operator x kind x kind value/error table.",
+		Explanation: "Decides four structural clauses of the operator table: (FIN) every float produced by evalNumericOperator/evalNegation/evalRange passes two-sided math.IsInf and math.IsNaN tests whose true edges leave by an error return before it is boxed into a value (bit-set dataflow {Inf,NaN} with dominance-based guards); (GUARD) evalRange's size test 0<=size<=10,000,000 dominates the allocation and the constant is the property's; (LAZY) in evalConditional Then/Else are evaluated only on the true/false edge of jlib.Boolean(cond) and no path runs both; (TAB) every switch over NumericOperator/ComparisonOperator/BooleanOperator in the evaluator covers all declared constants, and each parser led is registered for exactly the tokens its switch handles, so no 'unrecognised operator' panic is reachable; (OPTAB) the value each operator's case computes, read from the SSA of the three operator evaluators: + - * / are the float operation on (left, right) in that order, % is math.Mod(left, right), = != < <= > >= in go through eq/lt/lte/in with the documented negations and operand order, and/or are the short-circuit of jlib.Boolean(left), jlib.Boolean(right), & boxes conv(left) + conv(right) on every success path with conv = \"\" for a missing value and jlib.String otherwise, lt compares strictly left with right, and evalNumericOperator contains no arithmetic outside those five cases (no fast path). NOT decided: operand kind checking and the error chosen for each kind combination; eq's deep comparison.",
 		Rule:        commonRule,
-		Fixtures:    []string{"fin", "guard", "tab"},
+		Fixtures:    []string{"fin", "guard", "tab", "w"},
 		Run: func(c *Ctx, r *Result) {
 			e := newFIN(c, c.G)
 			n := runFINBoxing(c, e, r, "FIN", c.fnsNamed(r, "jsonata.evalNumericOperator", "jsonata.evalNegation", "jsonata.evalRange"))
@@ -107,17 +169,24 @@ func init() {
 			r.RequireMin("TAB operator enum switches in the evaluator", m, 3)
 			k := runRegistrationSwitch(c, r, "TAB")
 			r.RequireMin("TAB led/nud registration-vs-switch checks", k, 4)
+			ot := runOPTAB(c, r, "OPTAB")
+			r.RequireMin("OPTAB operator-table obligations", ot, 17)
+			runPureNamed(c, r, []string{"jsonata.evalNumericOperator", "jsonata.evalComparisonOperator", "jsonata.evalBooleanOperator", "jsonata.evalStringConcatenation", "jsonata.evalRange",
+				"jsonata.evalConditional", "jsonata.evalNegation", "jsonata.eq", "jsonata.lt", "jsonata.lte", "jsonata.in"}, nil, 5)
 			r.Assume("numbers entering evaluation (decoded JSON, number literals) are finite; FIN shows finiteness is preserved")
 		},
 	})
 	register(&propDef{
 		ID:          "C04",
-		Explanation: "Extracts the complete parameter set of the Pratt parser from the current source — lexeme->token tables (symbols1, symbols2, lookupKeyword), the binding-power rows and the formula initBindingPowers applies to them, lookupBp, the single binding of the parser's lookup fields, the loop test of parseExpression, each led's recursive right-binding power, the nud/led tables, the lexeme->token->operator-constant->String() chain, and the allowRegex flag of every token consumption that is followed by an operand or by a return to the Pratt loop — and compares it with the precedence relation written in the property (10 rows, all left-associative except := and the greedy else branch). For the token set of the language these parameters determine the parse of every operator chain, so a one-row move, a flipped associativity, a <= in the loop, a swapped operator constant or a wrong regex flag is caught for all ordered pairs, not the sampled ones. NOT decided: the path/predicate/group re-association done by optimize.",
+		Explanation: "Extracts the complete parameter set of the Pratt parser from the current source — lexeme->token tables (symbols1, symbols2, lookupKeyword), the binding-power rows and the formula initBindingPowers applies to them, lookupBp, the single binding of the parser's lookup fields, the loop test of parseExpression, each led's recursive right-binding power, the nud/led tables, the lexeme->token->operator-constant->String() chain, and the allowRegex flag of every token consumption that is followed by an operand or by a return to the Pratt loop — and compares it with the precedence relation written in the property (10 rows, all left-associative except := and the greedy else branch). For the token set of the language these parameters determine the parse of every operator chain, so a one-row move, a flipped associativity, a <= in the loop, a swapped operator constant or a wrong regex flag is caught for all ordered pairs, not the sampled ones. (W) nothing under Compile/Parse writes memory that existed before the call: the parse is a function of the text (no cache of parsed sub-expressions or parser state shared between calls). NOT decided: the path/predicate/group re-association done by optimize.",
 		Rule:        commonRule,
 		Fixtures:    []string{"tab"},
 		Run: func(c *Ctx, r *Result) {
 			runPRATT(c, r, "PRATT")
 			runRegistrationSwitch(c, r, "TAB")
+			// the parse is a function of the text: nothing under Compile/Parse writes memory that
+			// existed before the call (no cache of parsed sub-expressions, no global parser state)
+			runW(c, c.G, r, "W-compile", compileRootCfg(c))
 		},
 	})
 	register(&propDef{
@@ -138,7 +207,7 @@ func init() {
 	})
 	register(&propDef{
 		ID:          "C11",
-		Explanation: "Thin but genuine necessary conditions, decided by table comparison: jparse.jsonEscapes equals RFC 8259 section 7's two-character escape table exactly (no missing, changed or extra letter); true/false/null are lexed as boolean/boolean/null and parseBoolean maps each word to its own value; evalArray has an *ArrayNode case that appends a nested array literal as a unit without iterating over it; (LIT) literal values flow unchanged from token to result: the number nud stores the first result of strconv.ParseFloat(token text, 64) — the nearest double — only after testing its error, the string nud stores unescape(token text) only after testing its ok result, NegationNode.optimize folds a negated literal into the arithmetic negation of the operand's value (so -0 keeps its sign), and the functions eval dispatches number, string and boolean nodes to return reflect.ValueOf(node.Value) on every path (no cache or table in between). NOT decided: \\u decoding, surrogate pairing, number scanning.",
+		Explanation: "Thin but genuine necessary conditions, decided by table comparison: jparse.jsonEscapes equals RFC 8259 section 7's two-character escape table exactly (no missing, changed or extra letter); true/false/null are lexed as boolean/boolean/null and parseBoolean maps each word to its own value; evalArray has an *ArrayNode case that appends a nested array literal as a unit without iterating over it; (LIT) literal values flow unchanged from token to result: the number nud stores the first result of strconv.ParseFloat(token text, 64) — the nearest double — only after testing its error, the string nud stores unescape(token text) only after testing its ok result, NegationNode.optimize folds a negated literal into the arithmetic negation of the operand's value (so -0 keeps its sign), and the functions eval dispatches number, string and boolean nodes to return reflect.ValueOf(node.Value) on every path (no cache or table in between). (W) nothing under Compile writes pre-existing memory and the literal evaluators (evalNumber/String/Boolean/Null/Array/Object) write only memory of the evaluation. NOT decided: \\u decoding, surrogate pairing, number scanning.",
 		Rule:        commonRule,
 		Fixtures:    []string{"tab"},
 		Run: func(c *Ctx, r *Result) {
@@ -146,6 +215,8 @@ func init() {
 			r.RequireMin("TAB JSON-literal obligations", len(r.Obls), 14)
 			k := runLIT(c, r, "LIT")
 			r.RequireMin("LIT literal-flow obligations", k, 6)
+			runW(c, c.G, r, "W-compile", compileRootCfg(c))
+			runPureNamed(c, r, []string{"jsonata.evalNumber", "jsonata.evalString", "jsonata.evalBoolean", "jsonata.evalNull", "jsonata.evalArray", "jsonata.evalObject", "jsonata.groupItemsByKey"}, nil, 5)
 		},
 	})
 	register(&propDef{
@@ -208,23 +279,34 @@ func init() {
 				return files[filepath.Base(c.W.Fset.Position(s.ins.Pos()).Filename)] || files[filepath.Base(c.W.Fset.Position(exceptionRoot(s.f).Pos()).Filename)]
 			})
 			r.RequireMin("W write sites examined (root Eval/EvalBytes/String)", r.Counts["W write sites examined (root Eval/EvalBytes/String)"], 20)
+			// every member visited once, in order
+			var cf []*ssa.Function
+			for _, f := range libFuncsIn(c, c.REval) {
+				if f.Pkg != nil && f.Pkg.Pkg.Name() == "jlib" && files[filepath.Base(c.W.Fset.Position(exceptionRoot(f).Pos()).Filename)] {
+					cf = append(cf, f)
+				}
+			}
+			cv := runCOVER(c, r, "COVER", cf, map[string]bool{"jlib.Reverse": true})
+			r.RequireMin("COVER traversal loops in the array/hof/aggregate built-ins", cv, 12)
 		},
 	})
 	register(&propDef{
 		ID:          "C16",
-		Explanation: "Decides: (UNIT) in Substring, Pad, positionOfNthRune and abs every integer addition, comparison, string-slice bound and positionOfNthRune argument keeps code-point counts (utf8.RuneCountInString, the built-ins' integer parameters) apart from byte offsets (len(string), strings.Index*, range keys, decode widths) — a len(s) where a rune count is meant passes every ASCII sample; (CODEC) $base64encode/$base64decode reference the same base64 encoding variable, $encodeUrlComponent/$decodeUrlComponent use a matching escape/unescape pair of net/url, and $length is bound to utf8.RuneCountInString. NOT decided: the laws as string equalities; $split/$join/$replace/$trim.",
+		Explanation: "Decides: (UNIT) in Substring, Pad, positionOfNthRune and abs every integer addition, comparison, string-slice bound and positionOfNthRune argument keeps code-point counts (utf8.RuneCountInString, the built-ins' integer parameters) apart from byte offsets (len(string), strings.Index*, range keys, decode widths) — a len(s) where a rune count is meant passes every ASCII sample; (CODEC) $base64encode/$base64decode reference the same base64 encoding variable, $encodeUrlComponent/$decodeUrlComponent use a matching escape/unescape pair of net/url, and $length is bound to utf8.RuneCountInString; (W) the string built-ins are functions of their arguments: no write to pre-existing memory and no process-wide cache in $substring*, $pad, $trim, $contains, $split, $join, $match, $replace and the encode/decode functions or their jlib callees. NOT decided: the laws as string equalities; $split/$join/$replace/$trim.",
 		Rule:        commonRule,
-		Fixtures:    []string{"unit"},
+		Fixtures:    []string{"unit", "w"},
 		Run: func(c *Ctx, r *Result) {
 			runUNIT(c, r, "UNIT")
 			runCODEC(c, r, "CODEC")
+			runPureFamily(c, r, []string{"jlib.Substring", "jlib.SubstringBefore", "jlib.SubstringAfter", "jlib.Pad", "jlib.Trim", "jlib.Contains", "jlib.Split", "jlib.Join", "jlib.Match", "jlib.Replace",
+				"jlib.Base64Encode", "jlib.Base64Decode", "jlib.EncodeURL", "jlib.EncodeURLComponent", "jlib.DecodeURL"}, map[string]bool{"jlib": true}, 20)
 		},
 	})
 	register(&propDef{
 		ID:          "C19",
-		Explanation: "Decides: (TAB) expandDateComponent's switch and defaultDateFormats cover all 17 declared date components; (CLOCK) the only clock read under Eval is time.Now in Expr.newEnv, called once per Eval outside loops, and $now and $millis embed conversions of one and the same SSA value; (GUARD-API) no nanoseconds-since-epoch API (UnixNano: defined only 1678..2262) is reachable from $toMillis; (GUARD) every integer division/modulo under $fromMillis has a dominating non-zero test of its divisor. NOT decided: calendar field values (the 12-hour clock showing 0 for the midnight hour is real and value-level), the inverse law.",
+		Explanation: "Decides: (TAB) expandDateComponent's switch and defaultDateFormats cover all 17 declared date components; (CLOCK) the only clock read under Eval is time.Now in Expr.newEnv, called once per Eval outside loops, and $now and $millis embed conversions of one and the same SSA value; (GUARD-API) no nanoseconds-since-epoch API (UnixNano: defined only 1678..2262) is reachable from $toMillis; (GUARD) every integer division/modulo under $fromMillis has a dominating non-zero test of its divisor; (W) $fromMillis/$toMillis and the picture machinery beneath them are functions of their arguments (no write to pre-existing memory, no process-wide cache). NOT decided: calendar field values (the 12-hour clock showing 0 for the midnight hour is real and value-level), the inverse law.",
 		Rule:        commonRule,
-		Fixtures:    []string{"guard", "tab"},
+		Fixtures:    []string{"guard", "tab", "w"},
 		Run: func(c *Ctx, r *Result) {
 			runDateTables(c, r, "TAB")
 			runEnumSwitches(c, r, "TAB", []string{"jxpath"}, map[string]bool{"dateComponent": true})
@@ -236,6 +318,7 @@ func init() {
 				n := runGUARD(c, r, "GUARD", srcFuncsIn(reach), reach)
 				r.RequireMin("GUARD partial operations under FromMillis", n, 3)
 			}
+			runPureFamily(c, r, []string{"jlib.FromMillis", "jlib.ToMillis"}, map[string]bool{"jlib": true, "jxpath": true}, 30)
 		},
 	})
 }
@@ -300,9 +383,9 @@ func runPanics(c *Ctx, r *Result, rule string, reach *Reach, tabProved map[strin
 func init() {
 	register(&propDef{
 		ID:          "C09",
-		Explanation: "Decides the crash/hang classes that are visible in the shape of the code, over everything reachable from Eval in the module call graph: (NF) every kind-specific reflect accessor gets a provably resolved receiver (138 sites, interprocedural); (TAB) eval's type switch covers every node type the parser can emit and every operator-enum switch is exhaustive, so the 'unexpected node'/'unrecognised operator' panics are unreachable; (PANIC) every explicit panic under Eval is one of those or a listed exception; (LOOP) every loop under Eval has a recognised variant (range, counted towards an invariant bound, shrinking-suffix consumer, positive multiplicative scaling, or a reviewed entry) and every recursive SCC a reviewed structural descent; (GUARD) integer / and % have a dominating non-zero test, strconv.FormatInt bases are confined to [2,36], strings.Repeat counts are non-negative; (HASH) no interface-keyed map is indexed with a dynamically typed value; (IDX) every reflect.Value.Index gets an index proved within 0..Len-1; (BND) every native index and slice expression under Eval is in range: either the Go compiler's own prove pass removes its bounds check (asked with -d=ssa/check_bce on the current tree), or a difference-constraint proof over dominating comparisons, definitions and library post-conditions gives 0 <= low <= high <= len, or the unproved part is covered by a reviewed one-site invariant. (TA) every single-result type assertion is dominated by a reflect type test of the same value against a type variable whose initialiser denotes the asserted type, or asserts the success result of a function that only returns that type, or is a reviewed exception. NOT decided: IsValid/CanInterface guards beyond these rules, nil interfaces used as values, reflect.Set on zero Values, stack depth, lt's own panic.",
+		Explanation: "Decides the crash/hang classes that are visible in the shape of the code, over everything reachable from Eval in the module call graph: (NF) every kind-specific reflect accessor gets a provably resolved receiver (138 sites, interprocedural); (TAB) eval's type switch covers every node type the parser can emit and every operator-enum switch is exhaustive, so the 'unexpected node'/'unrecognised operator' panics are unreachable; (PANIC) every explicit panic under Eval is one of those or a listed exception; (LOOP) every loop under Eval has a recognised variant (range, counted towards an invariant bound, shrinking-suffix consumer, positive multiplicative scaling, or a reviewed entry) and every recursive SCC a reviewed structural descent; (GUARD) integer / and % have a dominating non-zero test, strconv.FormatInt bases are confined to [2,36], strings.Repeat counts are non-negative; (HASH) no interface-keyed map is indexed with a dynamically typed value; (IDX) every reflect.Value.Index gets an index proved within 0..Len-1; (BND) every native index and slice expression under Eval is in range: either the Go compiler's own prove pass removes its bounds check (asked with -d=ssa/check_bce on the current tree), or a difference-constraint proof over dominating comparisons, definitions and library post-conditions gives 0 <= low <= high <= len, or the unproved part is covered by a reviewed one-site invariant. (TA) every single-result type assertion is dominated by a reflect type test of the same value against a type variable whose initialiser denotes the asserted type, or asserts the success result of a function that only returns that type, or is a reviewed exception; (RO) the value of a struct field (Value.Field/FieldByName/FieldByIndex — possibly unexported, hence read-only for reflect) is only inspected until a CanInterface test, or the PkgPath test of the same field, has shown it usable, so function values and Go structs used as data cannot make reflect panic; (NILTYPE) no method is called on reflect.TypeOf(x) unless x is shown non-nil. NOT decided: IsValid/CanInterface guards beyond these rules, nil interfaces used as values, reflect.Set on zero Values, stack depth, lt's own panic.",
 		Rule:        commonRule,
-		Fixtures:    []string{"nf", "guard", "hash", "tab", "loop", "bnd", "ta"},
+		Fixtures:    []string{"nf", "guard", "hash", "tab", "loop", "bnd", "ta", "ro"},
 		Run: func(c *Ctx, r *Result) {
 			n := runNF(c, c.G, r, "NF", srcFuncsIn(c.REval), c.REval)
 			r.RequireMin("NF accessor sites under Eval", n, 130)
@@ -330,6 +413,10 @@ func init() {
 			runBNDFor(c, r, "BND", c.REval, "Eval", 250, 70)
 			ta := runTA(c, r, "TA", libFuncsIn(c, c.REval), c.REval)
 			r.RequireMin("TA single-result type assertions under Eval", ta, 10)
+			ro := runRO(c, r, "RO", libFuncsIn(c, c.REval), c.REval)
+			r.RequireMin("RO struct-field reads under Eval", ro, 5)
+			nt := runNILTYPE(c, r, "NILTYPE", libFuncsIn(c, c.REval), c.REval)
+			r.RequireMin("NILTYPE method calls on reflect.TypeOf results under Eval", nt, 2)
 			r.Assume("user-defined JSONata functions are not unboundedly recursive (excluded by the property)")
 			r.Assume("Go values handed to Eval are acyclic (JSON-decoded data); jtypes.Resolve follows pointer chains")
 			r.Assume("runes in a DecimalFormat are valid (utf8.RuneLen >= 1), as updateDecimalFormat enforces for user-supplied options")
@@ -337,9 +424,9 @@ func init() {
 	})
 	register(&propDef{
 		ID:          "C18",
-		Explanation: "Decides: (LOOP) every loop reachable from $formatNumber/$formatBase/$round/$number/$string has a recognised variant — in particular FormatNumber's mantissa scaling loop multiplies a value that is provably positive on entry (math.Abs of a value tested non-zero), the clause whose absence made $formatNumber(0, \"0.0e0\") hang; (FIN) $power, $sqrt and $round cannot return ±Inf or NaN (two-sided IsInf/IsNaN guards dominate the returns; Sqrt's argument is tested non-negative); (GUARD) FormatBase's radix test admits exactly [2,36], strconv.FormatInt's domain, and dominates the call; strings.Repeat counts in the picture renderer are non-negative. NOT decided: rounding, shortest form, picture rendering as values.",
+		Explanation: "Decides: (LOOP) every loop reachable from $formatNumber/$formatBase/$round/$number/$string has a recognised variant — in particular FormatNumber's mantissa scaling loop multiplies a value that is provably positive on entry (math.Abs of a value tested non-zero), the clause whose absence made $formatNumber(0, \"0.0e0\") hang; (FIN) $power, $sqrt and $round cannot return ±Inf or NaN (two-sided IsInf/IsNaN guards dominate the returns; Sqrt's argument is tested non-negative); (GUARD) FormatBase's radix test admits exactly [2,36], strconv.FormatInt's domain, and dominates the call; strings.Repeat counts in the picture renderer are non-negative; (W) the number functions are functions of their arguments: nothing under $formatNumber/$formatBase/$round/$number/$power/$sqrt writes pre-existing memory or keeps a process-wide cache (e.g. of analysed pictures). NOT decided: rounding, shortest form, picture rendering as values.",
 		Rule:        commonRule,
-		Fixtures:    []string{"fin", "guard", "loop"},
+		Fixtures:    []string{"fin", "guard", "loop", "w"},
 		Run: func(c *Ctx, r *Result) {
 			var roots []*ssa.Function
 			for _, n := range []string{"jlib.FormatNumber", "jlib.FormatBase", "jlib.Round", "jlib.Number", "jlib.String", "jlib.Power", "jlib.Sqrt", "jsonata.round"} {
@@ -387,6 +474,7 @@ func init() {
 			r.RequireMin("FIN success returns of the number built-ins", k, 6)
 			g := runGUARD(c, r, "GUARD", srcFuncsIn(reach), reach)
 			r.RequireMin("GUARD partial operations under the number functions", g, 5)
+			runPureFamily(c, r, []string{"jlib.FormatNumber", "jlib.FormatBase", "jlib.Round", "jlib.Number", "jlib.Power", "jlib.Sqrt", "jsonata.round"}, map[string]bool{"jlib": true, "jxpath": true, "jsonata": true}, 30)
 			r.Assume("runes in a DecimalFormat are valid (utf8.RuneLen >= 1), as updateDecimalFormat enforces for user-supplied options")
 		},
 	})
@@ -564,7 +652,7 @@ func init() {
 	})
 	register(&propDef{
 		ID:          "C12",
-		Explanation: "Decides the scope structure for all programs: (SCOPE) evalBlock and lambdaCallable.Call evaluate in a frame freshly created by newEnvironment whose parent is the current environment / the closure's captured environment; parameters are bound in that new frame; evalLambda, evalTypedLambda, evalPartial and evalObjectTransformation capture the env and context of their definition site; the parent link is written only by newEnvironment and followed only by the write-free lookup (bind cannot reach an outer frame). (W) Callable.Call has no environment parameter, so dynamic scoping or per-call state in a shared callable would need a write to pre-existing memory, which W excludes under Eval — in particular the context item and name of a built-in call live in a per-call copy (the defect behind a.$substringBefore($$.b.c.$substringBefore(\"z\"))). NOT decided: signature matching, placeholder order, chain/compose semantics.",
+		Explanation: "Decides the scope structure for all programs: (SCOPE) evalBlock and lambdaCallable.Call evaluate in a frame freshly created by newEnvironment whose parent is the current environment / the closure's captured environment; parameters are bound in that new frame; evalLambda, evalTypedLambda, evalPartial and evalObjectTransformation capture the env and context of their definition site; the parent link is written only by newEnvironment and followed only by the write-free lookup (bind cannot reach an outer frame). (W) Callable.Call has no environment parameter, so dynamic scoping or per-call state in a shared callable would need a write to pre-existing memory, which W excludes for every write in callable.go, env.go and the evaluator functions that build or apply function values (evalFunctionApplication/Call, evalPartial, evalLambda, evalBlock, ...) — a function value bound to a variable is never altered by composing, partially applying or calling it — in particular the context item and name of a built-in call live in a per-call copy (the defect behind a.$substringBefore($$.b.c.$substringBefore(\"z\"))). NOT decided: signature matching, placeholder order, chain/compose semantics.",
 		Rule:        commonRule,
 		Fixtures:    []string{"w"},
 		Run: func(c *Ctx, r *Result) {
@@ -575,9 +663,27 @@ func init() {
 				if strings.Contains(shortFn(s.f), "environment") {
 					return true
 				}
+				// everything in the files that implement function values and scopes, and the
+				// evaluator functions that build or apply function values
+				switch exceptionKey(s.f) {
+				case "(*jsonata.transformationCallable).updateEntries", "(*jsonata.transformationCallable).deleteEntries":
+					return false // writes to the data being transformed: C07's subject, not scope or function state
+				}
+				switch filepath.Base(c.W.Fset.Position(exceptionRoot(s.f).Pos()).Filename) {
+				case "callable.go", "env.go":
+					return true
+				}
+				switch exceptionKey(s.f) {
+				case "jsonata.evalFunctionApplication", "jsonata.evalFunctionCall", "jsonata.evalPartial", "jsonata.evalLambda", "jsonata.evalTypedLambda",
+					"jsonata.evalObjectTransformation", "jsonata.evalBlock", "jsonata.evalAssignment", "jsonata.evalVariable":
+					return true
+				}
 				return strings.Contains(s.what, "Callable.") || strings.Contains(s.what, "callableName.") || strings.Contains(s.what, ".environment.")
 			})
-			r.RequireMin("W write sites examined (root Eval/EvalBytes/String)", r.Counts["W write sites examined (root Eval/EvalBytes/String)"], 15)
+			r.RequireMin("W write sites examined (root Eval/EvalBytes/String)", r.Counts["W write sites examined (root Eval/EvalBytes/String)"], 40)
+			for _, name := range []string{"jsonata.evalFunctionApplication", "jsonata.evalFunctionCall", "jsonata.evalPartial", "jsonata.evalLambda", "jsonata.evalBlock"} {
+				c.mustFn(r, name)
+			}
 			_ = e
 			r.Assume(wAssume1)
 			r.Assume(wAssume2)
